@@ -295,7 +295,7 @@ PRIMITIVE_PREFIXES = (
 )
 
 
-def check_properties_file(ctx, relpath, expected, allowed):
+def check_properties_file(ctx, relpath, expected, allowed, coqchk=True):
     """Re-compile Properties/Cxx.v, capture Print Assumptions, compare with the allow-list.
     expected: list of theorem names that must be reported."""
     src = os.path.join(COQ, relpath)
@@ -329,7 +329,7 @@ def check_properties_file(ctx, relpath, expected, allowed):
     for n in expected:
         if isinstance(got.get(n), set):
             ctx.cov["axioms"][n] = sorted(got[n]) if got[n] else []
-    if ctx.thorough and os.environ.get("VERIF_NO_COQCHK") != "1":
+    if coqchk and ctx.thorough and os.environ.get("VERIF_NO_COQCHK") != "1":
         run_coqchk(ctx, relpath, allowed)
 
 
